@@ -958,11 +958,12 @@ class GraphProcessor:
 
             if graph_instance is not None:
                 cache_key = (choice_node, opt_dec_existence_key, tuple(choice_des_vector), tuple(prev_values))
-                if cache_key in graph_cache:
-                    graph_instance = graph_cache[cache_key].copy()
-                else:
-                    graph_cache[cache_key] = graph_instance = \
+                if cache_key not in graph_cache:
+                    graph_cache[cache_key] = \
                         graph_instance.get_for_apply_connection_choice(choice_node, node_edges, validate=False)
+
+                # Never hand out the cached object itself: values set on a returned instance should not be cached
+                graph_instance = graph_cache[cache_key].copy()
 
             used_values[i_dv_start:i_dv_end] = [
                 int(val) if choice_is_active[i_dv] else None for i_dv, val in enumerate(choice_des_vector)]
